@@ -412,6 +412,24 @@ pub fn gen_tree(rng: &mut Prng) -> Module {
     root
 }
 
+/// root module: main (index 0) calls function #f; function #g has k+1 cards, the last of which returns 999
+pub fn label_collision_module(f: usize, g: usize, k: usize) -> Module {
+    let mut m = Module::default();
+    let main = vec![set("_", nil()), discard(native("log3", vec![int(f as i64), call(&format!("f{f}"), vec![]), int(0)]))];
+    m.functions.push(("main".into(), Function { arguments: vec![], cards: main }));
+    for i in 1..=g {
+        let cards = if i == g {
+            let mut c: Vec<Card> = (0..k).map(|x| set("_", int(x as i64))).collect();
+            c.push(un("ret", int(999)));
+            c
+        } else {
+            vec![un("ret", int(i as i64))]
+        };
+        m.functions.push((format!("f{i}"), Function { arguments: vec![], cards }));
+    }
+    m
+}
+
 impl Engine for ResolveEngine {
     type Case = Case;
     fn name(&self) -> &'static str {
@@ -425,6 +443,13 @@ impl Engine for ResolveEngine {
         v
     }
     fn gen(&mut self, rng: &mut Prng, _tier: Tier) -> Case {
+        if rng.chance(1, 400) {
+            // labels are keyed by 32-bit handles; every card gets one as well as every function. These (function,
+            // big function, card) triples are the smallest ones whose handles are equal under the hash the crate
+            // used at the pinned commit and under the one it uses after the repair (found by exhaustive search)
+            let (f, g, k) = *rng.pick(&[(210usize, 1003usize, 1302usize), (968, 1437, 1051)]);
+            return Case { module: label_collision_module(f, g, k), inputs: vec![], scenario: "label-handle-collision".into() };
+        }
         Case { module: gen_tree(rng), inputs: vec![], scenario: "module-tree".into() }
     }
     fn run(&mut self, case: &Case, obs: &mut Obs) -> Verdict {
